@@ -166,7 +166,22 @@ def doc_term(case, written):
                                          clist([cstr(x) for x in written]), fts, jts)
 
 
+# hand-made documents that run first: a path over one segment (no link needed), several paths over one link, a
+# link given twice in complement forms, ordered groups of one item, nested sets
+CORPUS = [
+    (['S\ta\t*', 'P\tp\ta+\t*'], 'gfa1'),
+    (['S\ta\tACGT', 'S\tb\t*\tLN:i:6', 'L\ta\t+\tb\t-\t2M', 'P\tp\ta+,b-\t2M', 'P\tq\ta-\t*', 'P\tr\tb+,a-\t*',
+      'C\tb\t+\ta\t-\t1\t4M', 'L\tb\t+\ta\t-\t2M'], 'gfa1'),
+    (['H\tVN:Z:1.0', 'S\ta\tACGT\tLN:i:4', 'S\tb\tAC\tLN:i:2\tRC:i:0', 'L\ta\t+\ta\t-\t*', 'P\tp\ta+,a-\t*'], 'gfa1'),
+    (['H\tVN:Z:2.0', 'S\ta\t10\t*', 'S\tb\t10\t*', 'E\te\ta+\tb-\t6\t10$\t0\t4\t4M', 'O\to\ta+ e+ b-', 'O\to1\ta-',
+      'U\tu\ta b e', 'U\tv\tu o1', 'G\tg\ta-\tb+\t5\t*', 'F\ta\tx+\t0\t3\t0\t3\t*'], 'gfa2'),
+]
+
+
 def gen_doc(rng, i):
+    if i // 2 < len(CORPUS) and i % 2 == 0:
+        lines, ver = CORPUS[i // 2]
+        return list(lines), ver
     if i % 2:
         lines, info = gen.gen_gfa1(rng)
         ver = 'gfa1'
